@@ -207,6 +207,7 @@ func cliModel(bin, arg0 string, argv []string, fs *simos.FS, stdin []byte) (e Ex
 	// the flags (-set, -mset, -setkeys), so the array reading is the one of
 	// -set / -mset and the keys identify objects within it
 	readFile := func(name string) ([]byte, bool) {
+		name = fs.Resolve(name)
 		if fs.Dirs[name] || fs.Unreadable[name] {
 			return nil, false
 		}
@@ -214,6 +215,7 @@ func cliModel(bin, arg0 string, argv []string, fs *simos.FS, stdin []byte) (e Ex
 		return d, ok
 	}
 	canWrite := func(name string) bool {
+		name = fs.Resolve(name)
 		if fs.Dirs[name] || !fs.Dirs[dirOfName(name)] {
 			return false
 		}
@@ -231,7 +233,7 @@ func cliModel(bin, arg0 string, argv []string, fs *simos.FS, stdin []byte) (e Ex
 		if !canWrite(f.output) {
 			return fail("-o target cannot be written")
 		}
-		x.OutFile, x.OutData = f.output, []byte(out)
+		x.OutFile, x.OutData = fs.Resolve(f.output), []byte(out) // through a symbolic link, to what it points to
 		return x
 	}
 
